@@ -80,13 +80,14 @@ pub fn replay(cases: &[Value], out: &mut Out) {
 	rt.block_on(async {
 		let rig = Rig::new(RigCfg::default());
 		let small = Rig::new(RigCfg { max_req: 256, ..Default::default() });
-		let stack = stack_rig();
+		let stacks = [stack_rig("both"), stack_rig("httpOnly"), stack_rig("wsOnly")];
 		for (i, c) in cases.iter().enumerate() {
 			for k in 0..k_concretisations() {
 				let mut rng = rng_for(i, k);
 				let mut probs: Vec<(String, Value)> = vec![];
 				if c.get("cfg").is_some() {
-					stack_case(&stack, i, k, c, &mut rng, out).await;
+					let stack = stacks.iter().find(|r| c["mode"] == json!(r.cfg.mode)).expect("mode");
+					stack_case(stack, i, k, c, &mut rng, out).await;
 					continue;
 				}
 				if c.get("allowed").is_some() {
@@ -229,7 +230,7 @@ const STACK_PATHS: [(&str, &str, &str); 10] = [
 ];
 const STR_RES: &str = "a \"quoted\" \u{e9} string, with {\"result\": 1}";
 
-fn stack_rig() -> Rig {
+fn stack_rig(mode: &'static str) -> Rig {
 	use jsonrpsee_core::server::RpcModule;
 	use jsonrpsee_types::ErrorObjectOwned;
 	let log: Log = Default::default();
@@ -288,7 +289,7 @@ fn stack_rig() -> Rig {
 		let _ = pending.accept().await;
 	})
 	.unwrap();
-	Rig::with_methods(RigCfg { max_resp: 2048, ..Default::default() }, log, m.into())
+	Rig::with_methods(RigCfg { max_resp: 2048, mode, ..Default::default() }, log, m.into())
 }
 
 async fn stack_case(rig: &Rig, i: usize, k: usize, c: &Value, rng: &mut rand::rngs::StdRng, out: &mut Out) {
@@ -314,6 +315,19 @@ async fn stack_case(rig: &Rig, i: usize, k: usize, c: &Value, rng: &mut rand::rn
 	match r["ct"].as_str().unwrap() {
 		"json" => hs.push(("content-type".into(), "application/json".into())),
 		"text" => hs.push(("content-type".into(), pick(rng, &["text/plain", "application/xml"]))),
+		_ => {}
+	}
+	match r["upg"].as_str().unwrap() {
+		"good" => {
+			hs.push(("connection".into(), pick(rng, &["Upgrade", "upgrade", "keep-alive, Upgrade"])));
+			hs.push(("upgrade".into(), pick(rng, &["websocket", "WebSocket"])));
+			hs.push(("sec-websocket-key".into(), "dGhlIHNhbXBsZSBub25jZQ==".into()));
+			hs.push(("sec-websocket-version".into(), "13".into()));
+		}
+		"noKey" => {
+			hs.push(("connection".into(), "Upgrade".into()));
+			hs.push(("upgrade".into(), "websocket".into()));
+		}
 		_ => {}
 	}
 	let frames: Vec<Vec<u8>> = match r["body"].as_str().unwrap() {
@@ -358,13 +372,14 @@ async fn stack_case(rig: &Rig, i: usize, k: usize, c: &Value, rng: &mut rand::rn
 	let (ek, estatus, ecode) = (ans["k"].as_str().unwrap(), ans["status"].as_u64().unwrap() as u16, ans["code"].as_i64().unwrap());
 	let body = reply.json();
 	let mut probs: Vec<(String, Value)> = vec![];
-	let ctx = format!("{}:{}", if layers.is_empty() { "bare".to_string() } else { layers.join(">") }, if c["proxied"] == json!(true) { "proxied" } else { "passed" });
+	let ctx = format!("{}:{}:{}", c["mode"].as_str().unwrap(), if layers.is_empty() { "bare".to_string() } else { layers.join(">") }, if c["proxied"] == json!(true) { "proxied" } else if r["upg"] != "no" { "upgrade" } else { "passed" });
 	let mut bad = |what: String| probs.push((format!("stack:{ctx}:{what}"), Value::Null));
 	if reply.status != estatus {
 		bad(format!("status-exp-{estatus}-got-{}", reply.status));
 	} else {
 		let is_json_ct = reply.content_type.as_deref().map(|t| t.to_ascii_lowercase().starts_with("application/json")).unwrap_or(false);
 		match ek {
+			"upgrade" => {}
 			"text" => {
 				if body.as_ref().map(|b| b.get("result").is_some()).unwrap_or(false) {
 					bad("refusal-carries-a-result".into());
@@ -434,7 +449,7 @@ async fn stack_case(rig: &Rig, i: usize, k: usize, c: &Value, rng: &mut rand::rn
 		})
 		.collect();
 	if log != want_ran {
-		let refused = matches!(estatus, 400 | 403 | 405 | 415);
+		let refused = matches!(estatus, 400 | 403 | 405 | 415 | 101);
 		bad(if refused && !log.is_empty() { "handler-ran-for-refused-request".to_string() } else { format!("handlers-exp-{}-got-{}", want_ran.len(), log.len()) });
 	}
 	let d = json!({"case": c, "uri": uri, "headers": hs, "status": reply.status, "content_type": reply.content_type, "body": String::from_utf8_lossy(&reply.body), "log": log});
